@@ -136,7 +136,7 @@ Section Hist.
   Notation run' := (run aead_seal aead_open utf8_replace codec ws).
 
   Lemma open_session_reg : forall w reg now i ttl sid nonce,
-    snd (open_session aead_seal w reg now i ttl sid nonce) = reg_insert reg sid ((now + ttl)%Z, principal_key i).
+    snd (open_session aead_seal w reg now i ttl sid nonce) = reg_insert reg sid ((now + eff_ttl w ttl)%Z, principal_key i).
   Proof.
     intros w reg now i ttl sid nonce. unfold open_session.
     destruct (utf8_encode (w_id w)); [|reflexivity]. destruct (MAX_SERVER_ID_LEN <? blen b); reflexivity.
@@ -199,8 +199,8 @@ Section Hist.
   Lemma step_sub : forall s o s' ev k sid v,
     wnodup s -> step' s o = (s', ev) -> reg_lookup (regs_of s' k) sid = Some v ->
     reg_lookup (regs_of s k) sid = Some v \/
-    (exists i ttl n txt, o = OpOpen k i ttl sid n /\
-       ev = EvMinted k i (Z.to_N (wd_now s)) sid (wd_now s + ttl)%Z n txt /\ v = ((wd_now s + ttl)%Z, principal_key i)).
+    (exists i ttl n txt c exp, o = OpOpen k i ttl sid n /\
+       ev = EvMinted k i c sid exp n txt /\ v = (exp, principal_key i)).
   Proof.
     intros s o s' ev k sid v Hnd H L. unfold step in H. destruct o as [k0 i ttl sid0 n|k0 i hdr closes|k0 i hdr|k0|k0|dt].
     - destruct (nth_error ws k0) as [w|]; [|injection H as H1 _; subst s'; left; exact L].
@@ -211,7 +211,7 @@ Section Hist.
       destruct (Nat.eqb k0 k) eqn:E; [|left; exact L]. apply Nat.eqb_eq in E. subst k0.
       destruct (Bytes.bytes_eqb_spec sid sid0) as [Es|Es].
       + subst sid0. rewrite reg_lookup_insert_same in L. injection L as L. subst v.
-        right. exists i, ttl, n, txt. repeat split; reflexivity.
+        right. exists i, ttl, n, txt, (tok_secs (wd_now s)), (wd_now s + eff_ttl w ttl)%Z. repeat split; reflexivity.
       + rewrite reg_lookup_insert_other in L by exact Es. left. rewrite (regs_of_nth_error _ _ _ Er). exact L.
     - destruct (nth_error ws k0) as [w|]; [|injection H as H1 _; subst s'; left; exact L].
       destruct (nth_error (wd_regs s) k0) as [reg|] eqn:Er; [|injection H as H1 _; subst s'; left; exact L].
@@ -284,7 +284,7 @@ Section Hist.
     - destruct (step' s o) as [s1 e] eqn:S. destruct (run' s1 h) as [s2 es] eqn:R. cbn [fst].
       assert (L1 : reg_lookup (regs_of s1 k) sid = None).
       { destruct (reg_lookup (regs_of s1 k) sid) as [v|] eqn:L1; [|reflexivity]. exfalso.
-        destruct (step_sub s o s1 e k sid v Hnd S L1) as [X|[i [ttl [n [txt [X _]]]]]].
+        destruct (step_sub s o s1 e k sid v Hnd S L1) as [X|[i [ttl [n [txt [c [exp [X _]]]]]]]].
         - rewrite L in X. discriminate X.
         - apply (Hno i ttl n). left. exact X. }
       specialize (IH s1 k sid (step_nodup s o s1 e Hnd S) L1). rewrite R in IH. cbn [fst] in IH. apply IH.
@@ -305,9 +305,9 @@ Section Hist.
       exists i, c, n, txt. split; [left; exact H1|exact H2].
     - destruct (step' s o) as [s1 e] eqn:S. destruct (run' s1 h) as [s2 es] eqn:R. cbn [fst snd].
       assert (Hf1 : from_opens s1 (fun x => P x \/ x = e)).
-      { intros k sid exp pk L. destruct (step_sub s o s1 e k sid (exp, pk) Hnd S L) as [X|[i [ttl [n [txt [_ [X1 X2]]]]]]].
+      { intros k sid exp pk L. destruct (step_sub s o s1 e k sid (exp, pk) Hnd S L) as [X|[i [ttl [n [txt [c0 [exp0 [_ [X1 X2]]]]]]]]].
         - destruct (Hf k sid exp pk X) as [i [c [n [txt [H1 H2]]]]]. exists i, c, n, txt. split; [left; exact H1|exact H2].
-        - injection X2 as X2 X3. subst exp pk. exists i, (Z.to_N (wd_now s)), n, txt. split; [right; symmetry; exact X1|reflexivity]. }
+        - injection X2 as X2 X3. subst exp0 pk. exists i, c0, n, txt. split; [right; symmetry; exact X1|reflexivity]. }
       specialize (IH s1 _ (step_nodup s o s1 e Hnd S) Hf1). rewrite R in IH. cbn [fst snd] in IH.
       intros k sid exp pk L. destruct (IH k sid exp pk L) as [i [c [n [txt [H1 H2]]]]].
       exists i, c, n, txt. split; [|exact H2]. destruct H1 as [[H1|H1]|H1].
@@ -335,7 +335,7 @@ Section Hist.
   Theorem minted_text_is_envelope : forall s o s' k i c sid exp n txt,
     step' s o = (s', EvMinted k i c sid exp n (Some txt)) ->
     exists w sb, nth_error ws k = Some w /\ utf8_encode (w_id w) = Some sb /\ blen sb <= MAX_SERVER_ID_LEN /\
-      txt = b64u_encode (seal_bytes aead_seal (session_plain c sb sid (Z.to_N exp)) (w_key w) (compute_aad i) n) /\
+      txt = b64u_encode (seal_bytes aead_seal (session_plain c sb sid (tok_secs exp)) (w_key w) (compute_aad i) n) /\
       reg_lookup (regs_of s' k) sid = Some (exp, principal_key i).
   Proof.
     intros s o s' k i c sid exp n txt H. unfold step in H. destruct o as [k0 i0 ttl sid0 n0|k0 i0 hdr closes|k0 i0 hdr|k0|k0|dt].
